@@ -8,7 +8,7 @@ import (
 
 // C08: no packet or packet sequence makes the fragmenting swarm panic.
 
-//verif: cover=accepted,rejected bounds="every packet of 0..24 bytes (quick) / 0..32 (thorough)"
+// verif: cover=accepted,rejected bounds="every packet of 0..24 bytes (quick) / 0..32 (thorough)"
 func VH_C08_fragParseMessage() bool {
 	n := 24
 	if vThorough() {
@@ -33,7 +33,7 @@ func vSmallTotal(p []byte) {
 	vAssume(err != nil || t <= 3)
 }
 
-//verif: sched=coop cover=delivered,pending bounds="two packets from one source through handleTell; quick: 0..4 bytes each, announced fragment counts <= 3; thorough: 0..6 bytes, any count"
+// verif: sched=coop cover=delivered,pending bounds="two packets from one source through handleTell; quick: 0..4 bytes each, announced fragment counts <= 3; thorough: 0..6 bytes, any count"
 func VH_C08_fragHandleTellSeq() bool {
 	var sent []vSent
 	var got []vGot
